@@ -208,9 +208,115 @@ def run(chk):
                            sample={"function": f.qualname, "kernel": unparse(c.func)})
         # the hourly feature matrix selects its columns through the kernel feature lists only
     gfm = method(chk, hm, "_get_feature_matrices")
-    txt = unparse(gfm.node)
-    r3.require("for f in self._ts_feature_norm" in txt and "df[self._categorical_features + ['date']]" in txt, f"{gfm.key}|columns-via-feature-lists", gfm.where(),
-               "_get_feature_matrices must select X's columns through _ts_feature_norm and _categorical_features only")
+    out = _feature_matrix_columns(chk, hm, gfm)
+    allowed = {"temperature_norm", "ghi_norm", "temporal_cluster_0", "temporal_cluster_1", "daily_temp_2"}
+    ok = out.get("X") == sorted(allowed) and out.get("y") is None
+    r3.require(ok, f"{gfm.key}|columns-via-feature-lists", gfm.where(),
+               f"_get_feature_matrices (fitted model) must build X from exactly the columns named by _ts_feature_norm and _categorical_features, and no target; interpreted: {out}",
+               sample=out)
+
+
+def _feature_matrix_columns(chk, hm, gfm):
+    """Interpret HourlyModel._get_feature_matrices on a frame that only records which columns are selected."""
+    from engine.absint import AbsObj, BoundRepoMethods, ModuleEnv, Opaque
+    from engine.pyinterp import Function, Interp, InterpRaised, Stub, Unsupported
+    ALL = ["date", "hour_of_day", "observed", "observed_norm", "temperature", "temperature_norm", "ghi", "ghi_norm", "temporal_cluster_0", "temporal_cluster_1", "daily_temp_2",
+           "interpolated_observed", "interpolated_temperature"]
+
+    class GArr(Stub):
+        def __init__(self, cols):
+            self.cols = set(cols)
+
+        @property
+        def shape(self): return (Opaque("n0"), Opaque("n1"), Opaque("n2"))
+        def reshape(self, *a, **k): return GArr(self.cols)
+        @property
+        def values(self): return self
+        def tolist(self): return GList(self.cols)
+        def to_numpy(self, *a, **k): return self
+        def astype(self, *a, **k): return self
+
+    class GList(Stub):
+        def __init__(self, cols):
+            self.cols = set(cols)
+
+        def _abs_len(self): return 0
+        def __iter__(self): return iter(())
+
+    class GGroups(Stub):
+        def __init__(self, fr, key):
+            self.fr, self.key = fr, key
+
+        def agg(self, spec=None, **k):
+            if not isinstance(spec, dict):
+                raise Unsupported("groupby().agg() with something other than {column: function}")
+            miss = [c for c in spec if c not in self.fr.cols]
+            if miss:
+                raise InterpRaised("KeyError", str(miss))
+            return GArr(spec.keys())
+
+        def _all(self, *a, **k):
+            return GArr(c for c in self.fr.cols if c != self.key)
+
+        first = last = mean = sum = max = min = median = _all
+
+        def __getitem__(self, k):
+            return GGroups(GFrame([k] if isinstance(k, str) else list(k)) if True else None, self.key)
+
+    class GFrame(Stub):
+        def __init__(self, cols):
+            self.cols = list(cols)
+
+        def groupby(self, key, **k):
+            if not isinstance(key, str):
+                raise Unsupported("groupby on something other than a column name")
+            return GGroups(self, key)
+
+        def __getitem__(self, k):
+            if isinstance(k, list) and all(isinstance(x, str) for x in k):
+                miss = [x for x in k if x not in self.cols]
+                if miss:
+                    raise InterpRaised("KeyError", str(miss))
+                return GFrame(k)
+            raise Unsupported("frame[...] other than a list of column names")
+
+        @property
+        def columns(self): return list(self.cols)
+
+        def copy(self, *a, **k): return GFrame(self.cols)
+
+    class NPg(Stub):
+        @staticmethod
+        def array(x, **k):
+            if isinstance(x, (GList, GArr)):
+                return GArr(x.cols)
+            raise Unsupported("np.array of something other than the aggregated lists")
+
+        @staticmethod
+        def concatenate(parts, axis=0, **k):
+            parts = list(parts)
+            if axis != 1 or not all(isinstance(p, GArr) for p in parts):
+                raise Unsupported("np.concatenate other than column-wise on the day matrices")
+            return GArr(set().union(*[p.cols for p in parts]))
+
+        hstack = staticmethod(lambda parts: NPg.concatenate(parts, axis=1))
+
+    class _Me(AbsObj, BoundRepoMethods):
+        pass
+    it = Interp(step_limit=50_000)
+    stand = {"np": NPg(), "numpy": NPg()}
+    me = _Me({"HourlyModel"}, is_fitted=True, _ts_feature_norm=["temperature_norm", "ghi_norm"], _categorical_features=["temporal_cluster_0", "temporal_cluster_1", "daily_temp_2"],
+             _ts_features=["temperature", "ghi"], settings=Opaque("settings"))
+    me._bind_repo(chk, hm, it, stand)
+    try:
+        res = Function(gfm.node, ModuleEnv(chk.repo, gfm.module, it, stand), it)(me, GFrame(ALL), ([], []))
+    except InterpRaised as e:
+        return {"raises": e.exc_name}
+    except Unsupported as e:
+        raise AnalysisError(f"{gfm.key}: uses an operation outside the modelled subset: {e}")
+    if not (isinstance(res, tuple) and len(res) == 2 and isinstance(res[0], GArr)):
+        return {"returns": repr(res)[:60]}
+    return {"X": sorted(res[0].cols), "y": None if res[1] is None else (sorted(res[1].cols) if isinstance(res[1], GArr) else repr(res[1])[:40])}
 
 
 def _ancestor_ifs(f: FuncInfo, st: ast.AST):
@@ -361,10 +467,22 @@ def _taint_function(chk, r1, fam: str, f: FuncInfo, derived_cols: Set[str], seen
                     else:
                         escape = "returned"
                 elif isinstance(st, ast.If):
-                    body_stmts = [x for b in st.body + st.orelse for x in ast.walk(b) if isinstance(x, ast.stmt)]
+                    region = list(st.body) + list(st.orelse)
+                    # an early exit (`if <test>: return r`) makes the rest of the enclosing block the other branch
+                    if not st.orelse and st.body and isinstance(st.body[-1], (ast.Return, ast.Raise)):
+                        for parent in ast.walk(f.node):
+                            for fld in ("body", "orelse", "finalbody"):
+                                blk = getattr(parent, fld, None)
+                                if isinstance(blk, list) and st in blk:
+                                    region += blk[blk.index(st) + 1:]
+                    ret_names = {unparse(x.value) for x in walk_no_nested(f.node) if isinstance(x, ast.Return) and x.value is not None}
+                    same_result = len(ret_names) == 1 and all(isinstance(x.value, ast.Name) for x in walk_no_nested(f.node) if isinstance(x, ast.Return) and x.value is not None)
+                    body_stmts = [x for b in region for x in ast.walk(b) if isinstance(x, ast.stmt)]
                     cols = set()
                     other = False
                     for x in body_stmts:
+                        if isinstance(x, ast.Return) and same_result:
+                            continue  # every exit hands out the same frame: which exit is taken does not select a result
                         if isinstance(x, ast.Assign) and isinstance(x.targets[0], ast.Subscript):
                             sl = x.targets[0].slice
                             cols.add(const_str(sl) if not isinstance(sl, ast.Tuple) else const_str(sl.elts[-1]))
